@@ -274,6 +274,71 @@ fn arb_sequence_ast(depth: u32) -> BoxedStrategy<AstCase> {
     (prop_oneof![1 => tuple, 3 => chain], gen::arb_bits()).prop_map(|(ast, bits)| AstCase { ast, bits }).boxed()
 }
 
+/// Elements whose effect is not idempotent: evaluating one twice, or once instead of twice, is
+/// visible in the final variables and in the values of later elements.
+fn effect_pool() -> Vec<Ast> {
+    use refmodel::ast::{AssignOp, BinOp};
+    use refmodel::value::RV;
+    let v = |n: &str| Box::new(Ast::Var(n.to_string()));
+    let i = |k: i64| Box::new(Ast::Lit(RV::Int(k)));
+    let x = || "x".to_string();
+    vec![
+        Ast::Assign(AssignOp::Add, x(), i(1)),
+        Ast::Assign(AssignOp::Set, x(), Box::new(Ast::Bin(BinOp::Add, v("x"), i(1)))),
+        Ast::Assign(AssignOp::Mul, x(), i(3)),
+        Ast::Assign(AssignOp::Set, x(), Box::new(Ast::Bin(BinOp::Mul, v("x"), v("x")))),
+        Ast::Chain(vec![Ast::Assign(AssignOp::Add, x(), i(1)), Ast::Var(x())]),
+        Ast::Tuple(vec![Ast::Assign(AssignOp::Sub, x(), i(2)), Ast::Var(x())]),
+        Ast::Assign(AssignOp::Add, "s".to_string(), Box::new(Ast::Lit(RV::Str("a".into())))),
+        Ast::Bin(BinOp::Add, v("x"), i(1)),
+        Ast::Var(x()),
+    ]
+}
+
+/// n-th member of the repeated-element family: a sequence of 2..=5 elements drawn from two pool
+/// members (so most sequences repeat an element, next to itself and at a distance), as a tuple, a
+/// chain, or a chain of two tuples, between `x = 2; s = ""` and a final read of both variables.
+fn repeated_case(i: u64) -> Option<Ast> {
+    use refmodel::ast::AssignOp;
+    use refmodel::value::RV;
+    let pool = effect_pool();
+    let np = pool.len() as u64;
+    let (shape, r) = (i % 3, i / 3);
+    let (p, r) = ((r % np) as usize, r / np);
+    let (q, r) = ((r % np) as usize, r / np);
+    // r enumerates (length, mask): 4 + 8 + 16 + 32 = 60
+    let (mut len, mut m) = (2u32, r);
+    while m >= 1 << len {
+        m -= 1 << len;
+        len += 1;
+        if len > 5 {
+            return None;
+        }
+    }
+    let elems: Vec<Ast> = (0..len).map(|k| if m >> k & 1 == 1 { pool[q].clone() } else { pool[p].clone() }).collect();
+    let body = match shape {
+        0 => Ast::Tuple(elems),
+        1 => Ast::Chain(elems),
+        _ => {
+            let (a, b) = elems.split_at(elems.len() / 2);
+            let wrap = |v: &[Ast]| if v.len() == 1 { v[0].clone() } else { Ast::Tuple(v.to_vec()) };
+            Ast::Chain(vec![wrap(a), wrap(b)])
+        },
+    };
+    let init_x = Ast::Assign(AssignOp::Set, "x".to_string(), Box::new(Ast::Lit(RV::Int(2))));
+    let init_s = Ast::Assign(AssignOp::Set, "s".to_string(), Box::new(Ast::Lit(RV::Str(String::new()))));
+    let last = Ast::Tuple(vec![Ast::Var("x".to_string()), Ast::Var("s".to_string())]);
+    let mut chain = vec![init_x, init_s];
+    match body {
+        // a chain inside a chain is the same flat chain; keep the source flat
+        Ast::Chain(v) if shape == 1 => chain.extend(v),
+        b => chain.push(b),
+    }
+    chain.push(last);
+    Some(Ast::Chain(chain))
+}
+const REPEATED_CASES: u64 = 3 * 9 * 9 * 60;
+
 fn check_sequence_ast(c: &AstCase, l: &mut Local) -> Outcome {
     c02::check_ast(c, "C05", l)?;
     let toks = render_tokens(&c.ast, &mut Minimal);
@@ -288,7 +353,7 @@ pub fn run(rep: &Report) {
          interpreter's value and final variables — through the tree-level evaluator, through eval_tuple() / eval_empty(), \
          through the string-level eval_with_context_mut, and (sequences without assignment operators) through the \
          tree-level and string-level read-only evaluators. (b) random nested sequence ASTs with empty elements, assignments and \
-         reads, rendered with minimal and redundant parentheses. Non-trivial: a level mixing `,` and `;`, or an empty \
+         reads, rendered with minimal and redundant parentheses. (c) every sequence of 2..=5 elements over each pair of nine elements with non-idempotent effects (`x += 1`, `x = x * x`, `(x += 1; x)`, `s += \"a\"`, ...) as a tuple, a chain and a chain of two tuples, so that elements repeat next to themselves and at a distance; value and final variables against the reference interpreter. Non-trivial: a level mixing `,` and `;`, or an empty \
          element, or an assignment read by a later element.",
     );
     rep.assume("reference = chain of tuples per parenthesis level; an absent element is the empty value");
@@ -320,6 +385,19 @@ pub fn run(rep: &Report) {
         "sequence_bound",
         json!(format!("length <= {} over the 7-symbol sequence alphabet, length <= {} over the 16-symbol base alphabet", max_len, max_base)),
     );
+    // repeated elements with effects: every element of a tuple / chain is evaluated, each time it occurs
+    common::enumerate(rep, "repeated-elements", REPEATED_CASES, 64, &|i, l| {
+        let ast = match repeated_case(i) {
+            Some(a) => a,
+            None => return Ok(()),
+        };
+        let toks = render_tokens(&ast, &mut Minimal);
+        if i % 1009 == 5 {
+            l.sample(3, || json!(tok::render_spaced(&toks)));
+        }
+        l.label("sequence repeating an element with a side effect");
+        check_tokens(&toks, l)
+    });
     let n = rep.tier.pick(200_000u64, 6_000_000);
     let depth = rep.tier.pick(4u32, 7);
     common::random_search(rep, "random-sequences", 50, n, &move || arb_sequence_ast(depth), &|c: &AstCase, l| {
